@@ -67,6 +67,16 @@ def remoteCase (inp impl : String) : CaseOut :=
     let want := s!"unreachable={unr} dead={dead} deadtags={String.intercalate "." tags} later={later}"
     { model := want, spec := if impl = want then "ok" else s!"FAIL:C17 unreachable peer: implementation [{impl}] expected [{want}]",
       tags := ["unreach"], nontrivial := true }
+  else if kind = "abort" then
+    -- the writer's connection is gone from its point of view (connLost), the router catches up, the peer accepts again
+    let s0 : St := { routes := ["peer"], registered := ["peer"] }
+    let (s1, o1) := connLost s0 "peer"
+    let (_, o2) := drainRouter (fun _ => true) 5 (send s1 "peer" 1)
+    let reported := if o1.any (fun o => match o with | .unreachableEvent .. => true | _ => false) then 1 else 0
+    let resumed := if o2.any (fun o => match o with | .sent .. => true | _ => false) then 1 else 0
+    let want := s!"reported={reported} resumed={resumed}"
+    { model := want, spec := if impl = want then "ok" else s!"FAIL:C17 the stream was ended by the peer but the writer neither reported it nor made a fresh attempt: [{impl}] expected [{want}]",
+      tags := ["abort"], nontrivial := true }
   else if kind = "state" then
     let ops := commaList ((kv ws "ops").getD "")
     let stepOp (acc : RState × List String) (op : String) : RState × List String :=
@@ -76,6 +86,11 @@ def remoteCase (inp impl : String) : CaseOut :=
         (st', out ++ [if o = .started then "started" else "already"])
       else if op = "stop" then ((remoteStop st).1, out ++ ["stopped"])
       else if op = "dial" then (st, out ++ [if accepting st then "accepted" else "refused"])
+      else if op = "start2" then
+        -- Start with another engine: skipped before the first start; afterwards refused and without effect
+        if st = .initialized then (st, out ++ ["skip"]) else ((remoteStart st).1, out ++ ["already"])
+      else if op = "probe" then
+        if st = .initialized then (st, out ++ ["skip"]) else (st, out ++ [if accepting st then "reached" else "lost"])
       else (st, out ++ ["?"])
     let (_, out) := ops.foldl stepOp (.initialized, [])
     let want := String.intercalate "," out
